@@ -53,6 +53,34 @@ def run(tier, rng, C):
         cases.append({'id': p, 'line': G.inv_line(p, pl, G.op_node(nname)), 'show': G.show_inv(pl, 'node ' + nname),
                       'nontrivial': False, 'role': 'plain', 'twin': a})
 
+    # an include entry with a reference, spelled identically in two classes: the first time it
+    # resolves to a missing (ignored or not) class, the second time to an existing one (or the
+    # other way round); ignoring the first must not make the second disappear
+    for i in range(60 if tier == 'quick' else 2000):
+        inv = G.Inv()
+        inv.ignore = rng.random() < 0.8
+        inv.patterns = rng.choice([['.*'], ['^env\\.'], ['^nope$'], []])
+        first_missing = rng.random() < 0.7
+        names1, names2 = ('env.dev', 'env.prod') if first_missing else ('env.prod', 'env.dev')
+        entry = rng.choice(['env.${env}', '${full}', '.${rel}'])
+        v1, v2 = {'env.${env}': ('dev', 'prod'), '${full}': ('env.dev', 'env.prod'), '.${rel}': ('env.dev', 'env.prod')}[entry]
+        if not first_missing:
+            v1, v2 = v2, v1
+        key = {'env.${env}': 'env', '${full}': 'full', '.${rel}': 'rel'}[entry]
+        inv.classes[('defaults.yml',)] = G.doc([], [], ('m', [(S(key), S(v1)), (S('trace'), L(S('defaults')))]))
+        inv.classes[('override.yml',)] = G.doc([], [], ('m', [(S(key), S(v2)), (S('trace'), L(S('override')))]))
+        inv.classes[('first.yml',)] = G.doc([entry], ['fa'], ('m', [(S('trace'), L(S('first')))]))
+        inv.classes[('second.yml',)] = G.doc([entry] + ([entry] if rng.random() < 0.3 else []), ['sa'], ('m', [(S('trace'), L(S('second')))]))
+        inv.classes[('env', 'prod.yml')] = G.doc([], ['prodapp'], ('m', [(S('marker'), S('from-env-prod')), (S('trace'), L(S('env.prod')))]))
+        order = ['defaults', 'first', 'override', 'second']
+        if rng.random() < 0.3:
+            order = ['defaults', 'first', 'second', 'override', 'second']
+        inv.nodes[('n1.yml',)] = G.doc(order + ([entry] if rng.random() < 0.3 else []), [], ('m', [(S('trace'), L(S('NODE')))]))
+        inv.universe.update(['env.dev', 'env.prod', 'defaults', 'first', 'second', 'override'])
+        cid = C.case_id('r', i)
+        cases.append({'id': cid, 'line': G.inv_line(cid, inv, G.op_node('n1')), 'show': G.show_inv(inv, 'node n1'),
+                      'nontrivial': True, 'role': 'base'})
+
     def split_obs(o):
         """ok <meta> A <apps> C <classes> P <params> -> (apps, classes, params) text"""
         body = o.split(' A ', 1)[1]
